@@ -154,6 +154,8 @@ func NewLookupPartitionStrategyWithMetricRegistry(
 	}
 
 	unknownPartition := NewLookupPartitionWithMetricRegistry("<unknown>", 0.0, limit, registry)
+	// the unknown partition is a zero-fraction partition: it must not be granted the whole limit as its share
+	unknownPartition.UpdateLimit(limit)
 	strategy := &LookupPartitionStrategy{
 		partitions:       partitions,
 		unknownPartition: unknownPartition,
